@@ -79,6 +79,32 @@ fn apply_mutation(dir: &std::path::Path, r: &mut Rng, meta: usize) -> Mutation {
         let with_data: Vec<_> = wals.iter().filter(|p| used_len(&std::fs::read(p).unwrap()) > 0).cloned().collect();
         if with_data.is_empty() { None } else { Some(with_data[r.below(with_data.len() as u64) as usize].clone()) }
     };
+    if kind < 12 {
+        // the 2-byte length prefix of a header (first header of a block, or a 256-aligned position) set to a
+        // boundary value of the decoders' guard, or the 4-byte read_size field zeroed / set to a boundary
+        if let Some(p) = pick_wal(r) {
+            let mut b = std::fs::read(&p).unwrap();
+            let used = used_len(&b);
+            let pos = if r.chance(60) { (r.below((used / 4096 + 1) as u64) as usize) * 4096 } else { let q = r.below(used.max(1) as u64) as usize; q - q % meta };
+            let pos = pos.min(b.len() - 64);
+            if r.chance(65) {
+                let (lo, hi) = *r.pick(&[(255u8, 0u8), (0, 1), (254, 0), (253, 0), (1, 0), (31, 0), (32, 0), (33, 0), (255, 255), (2, 1)]);
+                b[pos] = lo; b[pos + 1] = hi;
+                std::fs::write(&p, &b).unwrap();
+                return Mutation { desc: format!("wal metalen pos={} set={}", pos, (lo as usize) | ((hi as usize) << 8)) };
+            } else {
+                // read_size lives at root+24 of the archive; the root is the last 32 bytes of the meta_len bytes
+                let ml = (b[pos] as usize) | ((b[pos + 1] as usize) << 8);
+                if ml >= 32 && ml <= 254 {
+                    let at = pos + 2 + ml - 32 + 24;
+                    let v: [u8; 4] = *r.pick(&[[0, 0, 0, 0], [1, 0, 0, 0], [255, 255, 255, 255], [0, 0, 0, 128], [0, 16, 0, 0]]);
+                    b[at..at + 4].copy_from_slice(&v);
+                    std::fs::write(&p, &b).unwrap();
+                    return Mutation { desc: format!("wal readsize pos={} set={:?}", pos, v) };
+                }
+            }
+        }
+    }
     if kind < 45 {
         // damage inside a WAL file: header bytes (aimed), payload bytes, or anywhere in the used region
         if let Some(p) = pick_wal(r) {
@@ -262,7 +288,44 @@ pub fn main(args: &[String]) {
                 let ops: Vec<String> = full[start..].to_vec();
                 let end = match status { None => "hang".to_string(), Some(s) => match s.code() { Some(0) => "exit0".into(), Some(c) => format!("exit{}", c), None => format!("signal:{:?}", std::os::unix::process::ExitStatusExt::signal(&s)) } };
                 let _ = nbase;
-                results.lock().unwrap().push((k, backend.clone(), m.desc, ops, outs, end));
+                // what each topic was given before the damage, in order
+                let mut appended: std::collections::HashMap<String, Vec<String>> = Default::default();
+                for l in baseprog.iter() {
+                    let t: Vec<&str> = l.split_whitespace().collect();
+                    match t.first().copied() {
+                        Some("append") => appended.entry(t[1].to_string()).or_default().push(t[2].to_string()),
+                        Some("batch") => appended.entry(t[1].to_string()).or_default().extend(t[2].split(',').map(|s| s.to_string())),
+                        _ => {}
+                    }
+                }
+                let mut extra_bad: Vec<String> = Vec::new();
+                for (topic, list) in appended.iter() {
+                    // entries returned by the consuming reads of this topic, in order
+                    let mut got: Vec<String> = Vec::new();
+                    for (op, o) in ops.iter().zip(outs.iter()) {
+                        let t: Vec<&str> = op.split_whitespace().collect();
+                        if t.len() < 2 || t[1] != topic { continue; }
+                        if t[0] == "next" && t[2] == "1" && o.contains(':') && !o.starts_with("err") { got.push(o.clone()); }
+                        if t[0] == "bread" && t[3] == "1" && t[4] == "-" && o.starts_with('[') {
+                            for e in o.trim_matches(|c| c == '[' || c == ']').split(',') { if !e.is_empty() { got.push(e.to_string()); } }
+                        }
+                    }
+                    // they must form a subsequence of what was appended (followed by the entry appended after the reopen)
+                    let mut full = list.clone();
+                    full.push("9:99".to_string());
+                    // all empty payloads are the same bytes: compare them by length only
+                    let norm = |s: &String| -> String { if s.starts_with("0:") { "0:0".to_string() } else { s.clone() } };
+                    let full: Vec<String> = full.iter().map(norm).collect();
+                    let got: Vec<String> = got.iter().map(norm).collect();
+                    let mut j = 0usize;
+                    for g in got.iter() {
+                        match full[j..].iter().position(|e| e == g) {
+                            Some(p) => j += p + 1,
+                            None => { extra_bad.push(format!("topic {} returned {} which is not a later appended entry of that topic (appended: {})", topic, g, full.join(","))); break; }
+                        }
+                    }
+                }
+                results.lock().unwrap().push((k, backend.clone(), m.desc, ops, outs, end, extra_bad));
                 let _ = std::fs::remove_dir_all(&d);
             });
         }
@@ -272,11 +335,11 @@ pub fn main(args: &[String]) {
     let mut out = std::io::BufWriter::new(std::fs::File::create(outdir.join("mutations.tsv")).unwrap());
     let mut vio = std::io::BufWriter::new(std::fs::File::create(outdir.join("violations.txt")).unwrap());
     let mut hist: std::collections::BTreeMap<String, u64> = Default::default();
-    for (k, backend, desc, ops, outs, end) in &results {
+    for (k, backend, desc, ops, outs, end, extra_bad) in &results {
         let class = desc.split_whitespace().take(2).collect::<Vec<_>>().join("_");
         *hist.entry(format!("mut_{}", class)).or_default() += 1;
         *hist.entry(format!("end_{}", end.split(':').next().unwrap())).or_default() += 1;
-        let mut bad: Vec<String> = Vec::new();
+        let mut bad: Vec<String> = extra_bad.clone();
         if end != "exit0" { bad.push(format!("process ended with {} after {} of {} operations", end, outs.len(), ops.len())); }
         for (op, o) in ops.iter().zip(outs.iter()) {
             if o == "panic" { bad.push(format!("`{}` panicked", op)); }
